@@ -88,6 +88,34 @@ static int g_rand_mode = 0;
 static uint64_t g_rand_epoch = 0;
 static uint64_t g_rand_calls = 0;
 
+// ---- virtual mtime: last logical modification time per inode (files under the root) ----
+#define MT_CAP 8192
+static uint64_t g_mt_ino[MT_CAP];
+static int64_t g_mt_ns[MT_CAP];
+static int g_mtime_mode = 0;
+static void mt_touch(uint64_t ino) {
+  if (!g_mtime_mode || !ino) return;
+  uint64_t h = (ino * 0x9e3779b97f4a7c15ULL) % MT_CAP;
+  for (int i = 0; i < MT_CAP; i++) {
+    uint64_t k = (h + i) % MT_CAP;
+    if (g_mt_ino[k] == ino || g_mt_ino[k] == 0) {
+      g_mt_ino[k] = ino;
+      g_mt_ns[k] = g_rt_ns;
+      return;
+    }
+  }
+}
+static int64_t mt_get(uint64_t ino) {
+  if (!ino) return -1;
+  uint64_t h = (ino * 0x9e3779b97f4a7c15ULL) % MT_CAP;
+  for (int i = 0; i < MT_CAP; i++) {
+    uint64_t k = (h + i) % MT_CAP;
+    if (g_mt_ino[k] == ino) return g_mt_ns[k];
+    if (g_mt_ino[k] == 0) return -1;
+  }
+  return -1;
+}
+
 static int under_root(const char *p) {
   if (g_root_len == 0 || !p) return 0;
   if (strncmp(p, g_root, g_root_len) != 0) return 0;
@@ -249,6 +277,7 @@ long kvshim_ctl(long cmd, long a, long b) {
     case 15: g_count_classes = (int)a; g_class_calls = 0; break;
     case 16: r = (long)g_mono_ns; break;
     case 17: r = (a >= 0 && a < g_call_trace_n && a < TRACE_CAP) ? g_call_trace[a] : -1; break;
+    case 20: g_mtime_mode = (int)a; if (!a) memset(g_mt_ino, 0, sizeof g_mt_ino); break;
     case 18: r = g_call_trace_n; break;
     case 19: g_call_trace_n = 0; g_class_calls = 0; break;
     default: r = -1;
@@ -297,6 +326,7 @@ static int do_open(int dirfd, const char *path, int flags, mode_t mode) {
     uint64_t ino = 0;
     if (syscall(SYS_fstat, (int)fd, &st) == 0) ino = st.st_ino;
     pthread_mutex_lock(&g_mu);
+    mt_touch(ino);
     if (!existed && (flags & O_CREAT))
       log_rec(K_CREATE, ino, 0, 0, ap, NULL, NULL, 0);
     else if (existed && (flags & O_TRUNC))
@@ -390,6 +420,7 @@ static ssize_t do_write(int fd, const void *buf, size_t n, int64_t at_off, int p
   ssize_t r = positional ? syscall(SYS_pwrite64, fd, buf, want, at_off) : syscall(SYS_write, fd, buf, want);
   if (r > 0) {
     pthread_mutex_lock(&g_mu);
+    mt_touch(ino);
     log_rec(K_WRITE, ino, off, 0, p, NULL, buf, (size_t)r);
     pthread_mutex_unlock(&g_mu);
   }
@@ -462,6 +493,7 @@ static int do_ftruncate(int fd, int64_t len) {
   int r = (int)syscall(SYS_ftruncate, fd, len);
   if (r == 0) {
     pthread_mutex_lock(&g_mu);
+    mt_touch(ino);
     log_rec(K_FTRUNCATE, ino, len, 0, p, NULL, NULL, 0);
     pthread_mutex_unlock(&g_mu);
   }
@@ -659,4 +691,23 @@ ssize_t getrandom(void *buf, size_t len, unsigned int flags) {
     i += k;
   }
   return (ssize_t)len;
+}
+
+// ---------------------------------------------------------------------------------------------
+// virtual mtime: statx reports the logical time of the last modification made through this shim
+// ---------------------------------------------------------------------------------------------
+#include <linux/stat.h>
+int statx(int dirfd, const char *path, int flags, unsigned int mask, struct statx *stx) {
+  long r = syscall(SYS_statx, dirfd, path, flags, mask, stx);
+  if (r == 0 && g_mtime_mode && stx) {
+    pthread_mutex_lock(&g_mu);
+    int64_t t = mt_get(stx->stx_ino);
+    pthread_mutex_unlock(&g_mu);
+    if (t >= 0) {
+      stx->stx_mtime.tv_sec = t / 1000000000LL;
+      stx->stx_mtime.tv_nsec = (uint32_t)(t % 1000000000LL);
+      stx->stx_ctime = stx->stx_mtime;
+    }
+  }
+  return (int)r;
 }
